@@ -351,3 +351,28 @@ CHECKS["C01"] = {
         "honest shares sign one decided signing root (C02 + C06); only partial signatures valid for their own root under the share's key are admitted (C10); ideal threshold BLS (C08)",
     ],
 }
+
+# ---------------------------------------------------------------------------------------------------------------
+_C10R = ["github.com/obolnetwork/charon/core.ParSignedDataSetFromProto=.vFromProto"]
+CHECKS["C10"] = {
+    "pkg": "./core/parsigex",
+    "parallel": 4,
+    "quick": [
+        {"harness": "VerifC10Peer", "params": {}, "redirects": _C10R},
+        {"harness": "VerifC10Randao", "params": {}, "redirects": _C10R},
+    ],
+    "thorough": [
+        {"harness": "VerifC10Peer", "params": {}, "redirects": _C10R, "cross": True},
+        {"harness": "VerifC10Randao", "params": {}, "redirects": _C10R, "cross": True},
+    ],
+    "bounds": {
+        "quick": "peer side only: one peer message with one partial signature; validator (two in the lock, one unknown), claimed share index (any byte), signed content, epoch (fork change at epoch 100), domain name (attester / randao / exit), slot (gated >= 200) and every ingredient of what the signature was actually made over (key, content, domain, epoch, validity) symbolic; once with a minimal Eth2SignedData type, once with the real core.SignedRandao",
+        "thorough": "same, both solvers",
+    },
+    "outside": "the validator-client side (validatorapi.verifyPartialSig and the Submit*/Proposal/*Selections handlers: each needs its own eth2 input objects - not encoded); the wire decoding core.ParSignedDataSetFromProto (redirected to the set under test; C14); the other real Eth2SignedData types' Epoch/DomainName/MessageRoot implementations; the BLS algebra (ideal Verify plugged in through tbls.SetImplementation)",
+    "assumptions": [
+        "ideal BLS Verify: a signature token verifies exactly for its key and the signed data",
+        "SSZ HashTreeRoot = ideal injective hash of the transcript of the type's own HashTreeRootWith",
+        "the beacon client serves a fixed spec (three domain types) and a domain that changes at a fork epoch",
+    ],
+}
